@@ -32,6 +32,7 @@ var pinnedJSON []byte
 type FuncFP struct {
 	Params  []string `json:"params,omitempty"` // parameter names (without receiver) of the pinned tree
 	PTypes  []string `json:"ptypes,omitempty"` // their types
+	RTypes  []string `json:"rtypes,omitempty"` // result types
 	Sig     string   `json:"sig"`
 	Callees []string `json:"callees"`
 	N       int      `json:"n"`             // number of SSA instructions
@@ -65,7 +66,18 @@ type Pinned struct {
 var (
 	canonMu   sync.RWMutex
 	canonName = map[types.Object]string{}
+	// canonKey: a function that plays the role of a pinned function/method although its
+	// receiver changed (method -> plain function, function -> method, another receiver
+	// type): the pinned key "T.Name" / "Name" it stands for.
+	canonKey = map[*types.Func]string{}
 )
+
+func keyOverride(f *types.Func) (string, bool) {
+	canonMu.RLock()
+	k, ok := canonKey[f]
+	canonMu.RUnlock()
+	return k, ok
+}
 
 func objName(o types.Object) string {
 	if o == nil {
@@ -191,6 +203,9 @@ func writeType(b *strings.Builder, t types.Type, depth int) {
 
 // canonFuncKey: "Name" or "T.Name" (receiver type by canonical name).
 func canonFuncKey(f *types.Func) string {
+	if k, ok := keyOverride(f); ok {
+		return k
+	}
 	sig := f.Type().(*types.Signature)
 	if r := sig.Recv(); r != nil {
 		rt := r.Type()
@@ -208,6 +223,19 @@ func canonFuncKey(f *types.Func) string {
 func canonFullName(f *types.Func) string {
 	if !isModObj(f) {
 		return f.FullName()
+	}
+	if k, ok := keyOverride(f); ok {
+		pk := f.Pkg().Path()
+		if i := strings.Index(k, "."); i >= 0 {
+			ptr := ""
+			if pn := pinnedTable(); pn.Pkgs != nil {
+				if pp := pn.Pkgs[Rel(pk)]; pp != nil && pp.Funcs[k].Ptr {
+					ptr = "*"
+				}
+			}
+			return "(" + ptr + pk + "." + k[:i] + ")." + k[i+1:]
+		}
+		return pk + "." + k
 	}
 	sig := f.Type().(*types.Signature)
 	if r := sig.Recv(); r != nil {
@@ -250,6 +278,9 @@ func funcFP(fn *ssa.Function) FuncFP {
 	for k := 0; k < sig.Params().Len(); k++ {
 		fp.Params = append(fp.Params, sig.Params().At(k).Name())
 		fp.PTypes = append(fp.PTypes, typeStr(sig.Params().At(k).Type()))
+	}
+	for k := 0; k < sig.Results().Len(); k++ {
+		fp.RTypes = append(fp.RTypes, typeStr(sig.Results().At(k).Type()))
 	}
 	fp.Sig = typeStr(types.NewSignatureType(nil, nil, nil, sig.Params(), sig.Results(), sig.Variadic()))
 	set := map[string]bool{}
@@ -644,6 +675,62 @@ func BuildAliases(p *Prog) {
 						name = key[k+1:]
 					}
 					setAlias(p, ms[0].f, name, "func "+Rel(ip))
+					continue
+				}
+				if len(ms) > 0 || round == 0 {
+					continue
+				}
+				// the receiver changed: a method became a plain function (or the reverse, or moved
+				// to another type). Same results, same work (callees), parameters that differ at
+				// most by the receiver and one or two values the receiver used to carry.
+				var rs []match
+				for ck, f := range cur {
+					if _, isPinned := pp.Funcs[ck]; isPinned {
+						continue
+					}
+					if _, taken := claimed[f]; taken {
+						continue
+					}
+					if _, has := keyOverride(f); has {
+						continue
+					}
+					crecv := ""
+					if k := strings.Index(ck, "."); k >= 0 {
+						crecv = ck[:k]
+					}
+					if crecv == recv {
+						continue
+					}
+					fn := p.SSA.FuncValue(f)
+					if fn == nil || fn.Blocks == nil {
+						continue
+					}
+					cfp := funcFP(fn)
+					if !eqStrings(cfp.RTypes, fp.RTypes) || len(fp.Callees) < 2 {
+						continue
+					}
+					if d := len(cfp.PTypes) - len(fp.PTypes); d < -2 || d > 2 {
+						continue
+					}
+					if sc := jaccard(cfp.Callees, fp.Callees); sc >= 0.6 {
+						rs = append(rs, match{f, sc})
+					}
+				}
+				sort.Slice(rs, func(i, j int) bool { return rs[i].score > rs[j].score })
+				if len(rs) == 1 || (len(rs) > 1 && rs[0].score-rs[1].score >= 0.2) {
+					claimed[rs[0].f] = key
+					canonMu.Lock()
+					if _, dup := canonKey[rs[0].f]; !dup {
+						canonKey[rs[0].f] = key
+						p.regKeys = append(p.regKeys, rs[0].f)
+						p.Aliases = append(p.Aliases, fmt.Sprintf("func %s: %s plays the role of the pinned %s (receiver changed; matched by results and callees)", Rel(ip), rs[0].f.FullName(), key))
+					}
+					canonMu.Unlock()
+					name := key
+					if k := strings.Index(key, "."); k >= 0 {
+						name = key[k+1:]
+					}
+					setAlias(p, rs[0].f, name, "func "+Rel(ip))
 				}
 			}
 		}
@@ -863,35 +950,82 @@ func ifaceMethodKey(f *types.Func) string {
 	return ""
 }
 
+// recvRoles: does the pinned declaration of f have a receiver, does the current one, and
+// (when the receiver was dropped) which current parameter carries the value of the pinned
+// receiver's type (-1: none).
+func recvRoles(f *types.Func) (pinnedRecv, curRecv bool, recvParam int) {
+	recvParam = -1
+	sig, _ := f.Type().(*types.Signature)
+	if sig == nil {
+		return
+	}
+	curRecv = sig.Recv() != nil
+	pinnedRecv = curRecv
+	key, over := keyOverride(f)
+	if !over {
+		return
+	}
+	pinnedRecv = strings.Contains(key, ".")
+	if pinnedRecv && !curRecv {
+		tn := key[:strings.Index(key, ".")]
+		for k := 0; k < sig.Params().Len(); k++ {
+			if n := recvNamed(sig.Params().At(k).Type()); n != nil && objName(n.Obj()) == tn {
+				recvParam = k
+			}
+		}
+	}
+	return
+}
+
 // ParamAt: the parameter of fn that plays the role of parameter i (receiver first) of the
 // pinned tree; nil when that role no longer exists.
 func ParamAt(fn *ssa.Function, i int) *ssa.Parameter {
 	if fn == nil || i < 0 {
 		return nil
 	}
-	off := 0
-	if fn.Signature.Recv() != nil {
-		off = 1
-	}
-	var m *paramMap
-	if obj, ok := fn.Object().(*types.Func); ok && fn.Parent() == nil {
-		m = pinnedParamMap(obj)
-	}
-	if m == nil || i < off {
+	obj, _ := fn.Object().(*types.Func)
+	if obj == nil || fn.Parent() != nil {
 		if i < len(fn.Params) {
 			return fn.Params[i]
 		}
 		return nil
 	}
-	j := i - off
-	if j < len(m.idx) {
-		if k := m.idx[j]; k >= 0 && off+k < len(fn.Params) {
-			return fn.Params[off+k]
+	pinnedRecv, curRecv, recvParam := recvRoles(obj)
+	pOff, cOff := 0, 0
+	if pinnedRecv {
+		pOff = 1
+	}
+	if curRecv {
+		cOff = 1
+	}
+	at := func(k int) *ssa.Parameter {
+		if k >= 0 && k < len(fn.Params) {
+			return fn.Params[k]
 		}
 		return nil
 	}
-	if e := j - len(m.idx); e < len(m.extras) && off+m.extras[e] < len(fn.Params) {
-		return fn.Params[off+m.extras[e]]
+	if i < pOff { // the pinned receiver
+		if curRecv {
+			return at(0)
+		}
+		if recvParam >= 0 {
+			return at(cOff + recvParam)
+		}
+		return nil
+	}
+	j := i - pOff
+	m := pinnedParamMap(obj)
+	if m == nil {
+		return at(cOff + j)
+	}
+	if j < len(m.idx) {
+		if k := m.idx[j]; k >= 0 {
+			return at(cOff + k)
+		}
+		return nil
+	}
+	if e := j - len(m.idx); e < len(m.extras) {
+		return at(cOff + m.extras[e])
 	}
 	return nil
 }
@@ -903,32 +1037,155 @@ func PArgs(cc *ssa.CallCommon) []ssa.Value {
 	if cc == nil {
 		return nil
 	}
-	var obj *types.Func
-	off := 0
 	if cc.IsInvoke() {
-		obj = cc.Method
-	} else if f := cc.StaticCallee(); f != nil && f.Parent() == nil {
-		obj, _ = f.Object().(*types.Func)
-		if f.Signature.Recv() != nil {
-			off = 1
+		m := pinnedParamMap(cc.Method)
+		if m == nil {
+			return cc.Args
 		}
+		return permute(cc.Args, 0, m)
 	}
-	m := pinnedParamMap(obj)
-	if m == nil {
+	f := cc.StaticCallee()
+	if f == nil || f.Parent() != nil {
 		return cc.Args
 	}
-	out := append([]ssa.Value{}, cc.Args[:off]...)
+	obj, _ := f.Object().(*types.Func)
+	if obj == nil {
+		return cc.Args
+	}
+	pinnedRecv, curRecv, recvParam := recvRoles(obj)
+	cOff := 0
+	if curRecv {
+		cOff = 1
+	}
+	m := pinnedParamMap(obj)
+	if m == nil && pinnedRecv == curRecv {
+		return cc.Args
+	}
+	var out []ssa.Value
+	switch {
+	case pinnedRecv && curRecv:
+		out = append(out, cc.Args[0])
+	case pinnedRecv && !curRecv:
+		if recvParam >= 0 && recvParam < len(cc.Args) {
+			out = append(out, cc.Args[recvParam])
+		} else {
+			out = append(out, nil)
+		}
+	}
+	if m == nil {
+		out = append(out, cc.Args[cOff:]...)
+	} else {
+		out = append(out, permute(cc.Args, cOff, m)...)
+	}
+	if !pinnedRecv && curRecv {
+		out = append(out, cc.Args[0]) // the new receiver: an extra
+	}
+	return out
+}
+
+func permute(args []ssa.Value, off int, m *paramMap) []ssa.Value {
+	var out []ssa.Value
 	for _, k := range m.idx {
-		if k >= 0 && off+k < len(cc.Args) {
-			out = append(out, cc.Args[off+k])
+		if k >= 0 && off+k < len(args) {
+			out = append(out, args[off+k])
 		} else {
 			out = append(out, nil)
 		}
 	}
 	for _, k := range m.extras {
-		if off+k < len(cc.Args) {
-			out = append(out, cc.Args[off+k])
+		if off+k < len(args) {
+			out = append(out, args[off+k])
 		}
 	}
 	return out
+}
+
+// ---- result lists that changed ----
+
+var resultMaps = map[*types.Func][]int{}
+
+// pinnedResultIndex: the current position of the result that was result i of f in the
+// pinned tree (matched by type and ordinal among results of that type); i itself when f is
+// not pinned or its result list is unchanged; -1 when that result is gone.
+func pinnedResultIndex(f *types.Func, i int) int {
+	if f == nil || !isModObj(f) {
+		return i
+	}
+	paramMapMu.Lock()
+	defer paramMapMu.Unlock()
+	m, ok := resultMaps[f]
+	if !ok {
+		m = nil
+		func() {
+			pn := pinnedTable()
+			if pn.Pkgs == nil {
+				return
+			}
+			pp := pn.Pkgs[Rel(f.Pkg().Path())]
+			if pp == nil {
+				return
+			}
+			fp, okf := pp.Funcs[canonFuncKey(f)]
+			if !okf || fp.RTypes == nil {
+				return
+			}
+			sig, _ := f.Type().(*types.Signature)
+			if sig == nil {
+				return
+			}
+			n := sig.Results().Len()
+			ct := make([]string, n)
+			for k := 0; k < n; k++ {
+				ct[k] = typeStr(sig.Results().At(k).Type())
+			}
+			same := len(ct) == len(fp.RTypes)
+			for k := 0; same && k < n; k++ {
+				if ct[k] != fp.RTypes[k] {
+					same = false
+				}
+			}
+			if same {
+				return
+			}
+			count := func(xs []string, t string) int {
+				c := 0
+				for _, x := range xs {
+					if x == t {
+						c++
+					}
+				}
+				return c
+			}
+			m = make([]int, len(fp.RTypes))
+			for j, t := range fp.RTypes {
+				m[j] = -1
+				if count(fp.RTypes, t) != count(ct, t) {
+					continue
+				}
+				ord := 0
+				for q := 0; q < j; q++ {
+					if fp.RTypes[q] == t {
+						ord++
+					}
+				}
+				seen := 0
+				for k := range ct {
+					if ct[k] == t {
+						if seen == ord {
+							m[j] = k
+						}
+						seen++
+					}
+				}
+			}
+		}()
+		resultMaps[f] = m
+	}
+	if m == nil {
+		return i
+	}
+	if i < len(m) {
+		return m[i]
+	}
+	return -1
 }
